@@ -8,12 +8,13 @@ only ``datetime.timedelta`` has among the values handled here — no type checke
 * a date in the future is either clamped to now under such a guard or forces the full format, and every relative
   phrase is returned only under ``not full_format``;
 * the number in each relative phrase is, for every second count admitted by the dominating guards (exhaustive folding
-  over 0..86399), within one unit of elapsed/unit for the phrase's own unit (second/minute/hour);
+  over 0..86399, locals expanded through their unique definitions), within 0.5 of elapsed/unit for the phrase's own
+  unit (second/minute/hour) - i.e. a nearest integer; double rounding and truncation are reported;
 * ``friendly_number`` chunks a sign-free digit string in threes from the right, joins with "," in the right order and
   keeps a literal minus sign for negatives.
 
-Not decided: the ambiguous "a nearest integer" is read as "an adjacent integer" (so floor vs round is not judged);
-absolute date formats; translations.
+Not decided: sub-second parts of the elapsed time (timedelta.seconds already truncates microseconds); absolute date
+formats; translations.
 """
 from __future__ import annotations
 
@@ -34,7 +35,7 @@ EXPLANATION = (
     "all second counts consistent with the dominating comparisons. friendly_number's chunk loop is recognised structurally and the reaching definitions of "
     "the chunked string must be sign-free (abs(), strip of '-', or a dominating non-negativity guard)."
 )
-NOT_DECIDED = "round-half behaviour / floor-vs-round of the relative number (the property's 'a nearest integer' is read as 'an adjacent integer'); absolute formats, month/weekday tables, translations, gmt_offset arithmetic"
+NOT_DECIDED = "the microsecond part of the elapsed time (the fold is over whole seconds); absolute formats, month/weekday tables, translations, gmt_offset arithmetic"
 
 F = "tornado/locale.py"
 
@@ -167,17 +168,46 @@ def rule_phrases(ck, fi):
               construct="not-full_format " + unit)
         if unit not in UNITS:
             raise AnalysisError("relative phrase with unknown unit %r" % unit)
-        # resolve the number expression to an expression over S
-        e = num
-        hops = 0
-        while isinstance(e, ast.Name) and e.id != S and hops < 4:
-            a = _assign_of(fi, e.id)
-            if a is None:
-                raise AnalysisError("number %s of the %s phrase is not a local expression" % (e.id, unit))
-            e = a.value
-            hops += 1
-        if (q.names_in(e) - {S, "round", "int"}):
-            raise AnalysisError("number expression %s of the %s phrase mentions more than the seconds count" % (q.unparse(e), unit))
+        # expand the number expression through the unique reaching definitions of its locals until only S is left
+        days_names = {n_.targets[0].id for n_ in own_nodes(fi.node) if isinstance(n_, ast.Assign) and len(n_.targets) == 1 and isinstance(n_.targets[0], ast.Name)
+                      and isinstance(n_.value, ast.Attribute) and n_.value.attr == "days"}
+        zero_days = {d for d in days_names if holds(facts[node.id], "%s == 0" % d, True) or holds(facts[node.id], d, False)}
+
+        def expand(x, depth=0):
+            if depth > 8:
+                raise AnalysisError("number of the %s phrase: definition chain too deep" % unit)
+
+            class T(ast.NodeTransformer):
+                def visit_Name(self, nm):
+                    if nm.id == S or nm.id in ("round", "int", "float"):
+                        return nm
+                    if nm.id in zero_days:
+                        return ast.Constant(value=0)
+                    a = _assign_of(fi, nm.id)
+                    if a is None:
+                        raise AnalysisError("number of the %s phrase depends on %s, which is not a local with a unique definition" % (unit, nm.id))
+                    return expand(copy.deepcopy(a.value), depth + 1)
+
+            return T().visit(x)
+
+        try:
+            e = expand(copy.deepcopy(num))
+        except AnalysisError:
+            # established absence: the number is taken from some *other* timedelta's seconds, not from the guarded elapsed count
+            probe = num
+            hops_ = 0
+            while isinstance(probe, ast.Name) and probe.id != S and hops_ < 4 and _assign_of(fi, probe.id) is not None:
+                probe = _assign_of(fi, probe.id).value
+                hops_ += 1
+            foreign = [x for x in ast.walk(probe) if isinstance(x, ast.Attribute) and x.attr in ("seconds", "microseconds", "days")]
+            if foreign:
+                ck.ob("C46.phrase-unit", fi, whole, False, "the number in the '%s' phrase is computed from the guarded elapsed seconds (it reads %s instead)" % (unit, q.unparse(foreign[0])),
+                      construct="unit %s number %s" % (unit, q.unparse(probe)))
+                continue
+            raise
+        extra = q.names_in(e) - {S, "round", "int", "float"}
+        if extra:
+            raise AnalysisError("number expression %s of the %s phrase mentions %s besides the seconds count" % (q.unparse(e), unit, sorted(extra)))
         # admissible seconds: all dominating comparisons that mention only S
         conds = []
         for t, pol in facts[node.id]:
@@ -207,8 +237,9 @@ def rule_phrases(ck, fi):
         if n_adm == 0:
             ck.ob("C46.phrase-unit", fi, whole, True, "the '%s' phrase is unreachable under its dominating guards (no admissible second count): nothing to show" % unit, construct="unit %s unreachable" % unit)
             continue
-        ck.ob("C46.phrase-unit", fi, whole, worst is not None and worst[0] < 1.0,
-              "the number in the '%s' phrase is elapsed seconds / %d within one unit, for all %d admissible second counts (worst: %s)" % (unit, UNITS[unit], n_adm, "s=%d -> %s" % (worst[1], worst[2]) if worst else "-"),
+        ck.ob("C46.phrase-unit", fi, whole, worst is not None and worst[0] <= 0.5 + 1e-9,
+              "the number in the '%s' phrase is elapsed seconds / %d rounded to a nearest integer (|n - s/%d| <= 0.5) for all %d admissible second counts (worst: %s)" % (
+                  unit, UNITS[unit], UNITS[unit], n_adm, "s=%d -> %s, off by %.3f" % (worst[1], worst[2], worst[0]) if worst else "-"),
               construct="unit %s number %s" % (unit, q.unparse(e)))
         # the value substituted into the message is the same number
         if isinstance(whole, ast.BinOp) and isinstance(whole.right, ast.Dict):
@@ -420,15 +451,39 @@ def rule_grouping(ck, fi):
         ck.ob("C46.sign-free-grouping", fi, fi.node, has_minus, "negative numbers get their minus sign back (a literal '-' is re-attached somewhere)", construct="minus-reattached")
 
 
+def rule_utc(ck, fi):
+    """`date` and `now` live on the same, explicit time scale: numeric timestamps are converted with an explicit tz, now() is
+    taken with an explicit tz, naive datetimes are declared UTC (not shifted)."""
+    n = 0
+    for c in q.calls(fi.node):
+        nm = q.call_attr(c)
+        if nm in ("fromtimestamp", "now"):
+            n += 1
+            tz = q.arg(c, 1 if nm == "fromtimestamp" else 0, "tz")
+            ck.ob("C46.same-time-scale", fi, c, tz is not None and not q.is_const(tz, None) and "utc" in q.unparse(tz).lower(),
+                  "%s() is given an explicit UTC tz (a naive local time compared with / labelled as UTC shifts the date by the machine's UTC offset, turning future into past)" % nm)
+        elif nm in ("utcnow", "utcfromtimestamp", "today"):
+            n += 1
+            ck.ob("C46.same-time-scale", fi, c, False, "naive %s() mixed with aware datetimes" % nm)
+        elif nm == "replace" and q.kwarg(c, "tzinfo") is not None:
+            n += 1
+            ck.ob("C46.same-time-scale", fi, c, "utc" in q.unparse(q.kwarg(c, "tzinfo")).lower(), "naive datetimes are declared UTC")
+        elif nm == "astimezone":
+            n += 1
+    ck.floor("C46.same-time-scale", n, 2, "time-scale conversions in format_date")
+
+
 def run(ck):
+    ck.rule("C46.same-time-scale", "timestamps, naive datetimes and now() are all put on the UTC scale explicitly before they are compared")
     ck.rule("C46.seconds-with-days", "timedelta.seconds (within-day remainder) is used as a duration only where the same timedelta's days are known to be 0, or together with .days")
     ck.rule("C46.future-full-format", "a future date is clamped to now (only under a recognised bound of at most 60 s) or forces the full format before the elapsed time is computed")
     ck.rule("C46.relative-guard", "relative phrases are returned only under `not full_format`")
-    ck.rule("C46.phrase-unit", "the number of each 'N unit ago' phrase is elapsed seconds divided by that unit, within one unit, for every admissible second count")
+    ck.rule("C46.phrase-unit", "the number of each 'N unit ago' phrase is elapsed seconds divided by that unit rounded to a nearest integer (error <= 0.5), for every admissible second count (locals expanded through their unique definitions)")
     ck.rule("C46.grouping", "friendly_number takes and removes exactly three characters per step and joins the chunks with ',' most-significant first")
     ck.rule("C46.sign-free-grouping", "the string that is chunked is sign-free and negatives get a literal '-' back")
     fd = ck.func(F, "Locale.format_date")
     rule_seconds(ck, fd)
+    rule_utc(ck, fd)
     rule_future(ck, fd)
     rule_phrases(ck, fd)
     fn = ck.func(F, "Locale.friendly_number")
@@ -455,7 +510,27 @@ def _drop_full_format(root):
     return False
 
 
+def _double_rounding(root):
+    for n in ast.walk(root):
+        if isinstance(n, ast.If) and _src(n.test) == "seconds < 50 * 60":
+            n.body = [st for st in n.body if not (isinstance(st, ast.Assign) and _src(st).startswith("minutes ="))]
+            for par in ast.walk(root):
+                body = getattr(par, "body", None)
+                if isinstance(body, list) and n in body:
+                    i = body.index(n)
+                    body.insert(i, parse_stmt("minutes = round(seconds / 60.0)"))
+                    for j, st in enumerate(body):
+                        if isinstance(st, ast.Assign) and _src(st).startswith("hours ="):
+                            body[j] = parse_stmt("hours = round(minutes / 60.0)")
+                    return True
+    return False
+
+
 MUTANTS = [
+    ("seeded C46-adv1: hours computed from already-rounded minutes", _m("format_date", _double_rounding), "C46.phrase-unit"),
+    ("minutes truncated instead of rounded", _m("format_date", replace_expr(lambda n: isinstance(n, ast.Call) and _src(n) == "round(seconds / 60.0)", lambda n: parse_expr("int(seconds / 60.0)"))), "C46.phrase-unit"),
+    ("hours by floor division", _m("format_date", replace_expr(lambda n: isinstance(n, ast.Call) and _src(n) == "round(seconds / (60.0 * 60))", lambda n: parse_expr("seconds // 3600"))), "C46.phrase-unit"),
+    ("numeric timestamps converted in local time then labelled UTC", _m("format_date", replace_expr(lambda n: isinstance(n, ast.Call) and _src(n.func).endswith("fromtimestamp"), lambda n: ast.Call(func=n.func, args=n.args[:1], keywords=[]))), "C46.same-time-scale"),
     ("undo F26a repair: clock-skew window tested on .seconds alone", _m("format_date", replace_expr(lambda n: isinstance(n, ast.Call) and _src(n).endswith(".total_seconds()"), lambda n: ast.Attribute(value=n.func.value, attr="seconds", ctx=ast.Load()))), "C46.seconds-with-days"),
     ("undo F26b repair: signed text is chunked", _m("friendly_number", replace_expr(lambda n: isinstance(n, ast.Call) and _src(n) == "abs(value)", lambda n: ast.Name(id="value", ctx=ast.Load()))), "C46.sign-free-grouping"),
     ("minus sign dropped for negatives", _m("friendly_number", replace_expr(lambda n: isinstance(n, ast.IfExp) and isinstance(n.body, ast.Constant) and n.body.value == "-", lambda n: ast.Constant(value=""))), "C46.sign-free-grouping"),
